@@ -101,6 +101,25 @@ const MAX_PARKED_TXS_PER_ACCOUNT: usize = 15;
 /// transactions allowed in the cometBFT mempool.
 const REMOVAL_CACHE_SIZE: usize = 50_000;
 
+/// Verification hook (off unless the `verif` feature is enabled): the order in which the sections
+/// guarded by the mempool's lock ran, recorded while the lock is held.
+#[cfg(feature = "verif")]
+pub(crate) mod verif_hook {
+    use std::sync::Mutex;
+
+    use astria_core::primitive::v1::TransactionId;
+
+    pub(crate) static SECTIONS: Mutex<Vec<(&'static str, Option<TransactionId>)>> =
+        Mutex::new(Vec::new());
+
+    pub(crate) fn record(kind: &'static str, tx_id: Option<TransactionId>) {
+        SECTIONS
+            .lock()
+            .unwrap_or_else(std::sync::PoisonError::into_inner)
+            .push((kind, tx_id));
+    }
+}
+
 /// `RemovalCache` is used to signal to `CometBFT` that a
 /// transaction can be removed from the `CometBFT` mempool.
 ///
@@ -399,6 +418,8 @@ impl MempoolInner {
 
                         // track in contained txs
                         self.contained_txs.insert(tx_id_to_insert);
+                        #[cfg(feature = "verif")]
+                        verif_hook::record("insert", Some(tx_id_to_insert));
                         Ok(InsertionStatus::AddedToParked)
                     }
                     Err(err) => Err(err),
@@ -440,6 +461,8 @@ impl MempoolInner {
 
                 // track in contained txs
                 self.contained_txs.insert(tx_id_to_insert);
+                #[cfg(feature = "verif")]
+                verif_hook::record("insert", Some(tx_id_to_insert));
 
                 Ok(InsertionStatus::AddedToPending)
             }
@@ -619,6 +642,8 @@ impl MempoolInner {
             .add(block_execution_results, block_height);
         self.metrics
             .set_results_in_recently_executed_cache(self.recent_execution_results.len());
+        #[cfg(feature = "verif")]
+        verif_hook::record("maintenance", None);
     }
 
     fn pending_nonce(&self, address_bytes: &[u8; ADDRESS_LENGTH]) -> Option<u32> {
